@@ -64,7 +64,7 @@ pub struct Runner {
     pub history: usize,
     pub line_no: usize,
     pub bsei_init_with_balances: bool,
-    pub saved: Option<(Chain, bool, bool, BTreeMap<Id, (Id, Id)>, Option<u128>, BTreeMap<u64, u64>, bool, BTreeMap<(Id, Id, Id), String>)>,
+    pub saved: Option<(Chain, bool, bool, BTreeMap<Id, (Id, Id)>, Option<u128>, BTreeMap<u64, u64>, bool, BTreeMap<(Id, Id, Id), String>, Option<u64>)>,
     /// C10 ghost: (owner, nominee) per contract as the *history* of successful SetOwner /
     /// AcceptOwnership calls determines them, independent of what the contract stores
     pub ghost_roles: BTreeMap<Id, (Id, Id)>,
@@ -80,6 +80,9 @@ pub struct Runner {
     /// C18 ghost: expiration of every allowance (token, owner, spender) as the owner's successful
     /// Increase/DecreaseAllowance calls determine it (an omitted `expires` keeps the current one)
     pub ghost_allow: BTreeMap<(Id, Id, Id), String>,
+    /// C09 ghost: chain time of the last undelegation (or of the hub's instantiation), from the
+    /// history of operations — what `last_unbonded_time` must be
+    pub ghost_last_und: Option<u64>,
     /// E1 (magnitudes ≤ 10^18) has been left in this history
     pub e1_broken: bool,
     pub deep: bool,
@@ -104,6 +107,7 @@ impl Runner {
             ghost_completion: BTreeMap::new(),
             e2_ok: true,
             ghost_allow: BTreeMap::new(),
+            ghost_last_und: None,
             e1_broken: false,
             deep: std::env::var("KRP_DEEP").map(|v| v == "1").unwrap_or(false),
         }
@@ -126,17 +130,19 @@ impl Runner {
             self.ghost_completion.clear();
             self.e2_ok = true;
             self.ghost_allow.clear();
+            self.ghost_last_und = None;
             self.history += 1;
             self.bsei_init_with_balances = false;
             self.e1_broken = false;
             return "ok | reset".to_string();
         }
         if let Op::Save = op {
-            self.saved = Some((self.chain.clone(), self.envelope, self.bsei_init_with_balances, self.ghost_roles.clone(), self.ghost_recorded, self.ghost_completion.clone(), self.e2_ok, self.ghost_allow.clone()));
+            self.saved = Some((self.chain.clone(), self.envelope, self.bsei_init_with_balances, self.ghost_roles.clone(), self.ghost_recorded, self.ghost_completion.clone(), self.e2_ok, self.ghost_allow.clone(), self.ghost_last_und));
             return "ok | save".to_string();
         }
         if let Op::Restore = op {
-            if let Some((c, e, b, g, gr, gc, e2, ga)) = self.saved.clone() {
+            if let Some((c, e, b, g, gr, gc, e2, ga, glu)) = self.saved.clone() {
+                self.ghost_last_und = glu;
                 self.ghost_allow = ga;
                 self.ghost_recorded = gr;
                 self.ghost_completion = gc;
@@ -162,7 +168,11 @@ impl Runner {
         if let Op::Inst(i) = op {
             if r.ok {
                 self.inst.insert(match i {
-                    Inst::Hub { .. } => "hub",
+                    Inst::Hub { .. } => {
+                        // the epoch clock starts at instantiation
+                        self.ghost_last_und = if judged { None } else { Some(self.chain.time) };
+                        "hub"
+                    }
                     Inst::Bsei { bals, .. } => {
                         self.bsei_init_with_balances = !bals.is_empty();
                         "bsei"
@@ -266,6 +276,7 @@ impl Runner {
                 ghost_recorded: self.ghost_recorded,
                 ghost_completion: ghost_completion.as_ref(),
                 ghost_allow: &self.ghost_allow,
+                ghost_last_und: self.ghost_last_und,
                 envelope: self.envelope && !self.bsei_init_with_balances && !self.e1_broken && self.chain.withdraw_addr == DISP,
             };
             let cx_envelope = cx.envelope;
@@ -275,6 +286,10 @@ impl Runner {
                 }
             } else {
                 self.bump("ops_outside_e1");
+            }
+            // C09 ghost bookkeeping: the clock of the epoch gate restarts at every undelegation
+            if post.hist.iter().any(|h| !pre.hist.iter().any(|x| x.id == h.id)) {
+                self.ghost_last_und = Some(self.chain.time);
             }
             // C18 ghost bookkeeping: allowance expirations from the history of the owner's calls
             if r.ok {
